@@ -436,21 +436,23 @@ pub fn explore_c01(rep: &mut Report, thorough: bool) {
     eprintln!("bfs: {:?} levels={:?}", t0.elapsed(), b.levels.iter().map(|l| l.len()).collect::<Vec<_>>());
     let docs = docs_quick();
     let doc_json: Vec<String> = docs.iter().map(|d| d.json()).collect();
-    let mut files: Vec<(File, String)> = b.levels.iter().flatten().map(|f| (f.clone(), print_file(f))).collect();
+    // order: the hand-written pool and the same-name family first, then the BFS levels smallest first, so that a wall-clock
+    // cap on a loaded machine cuts the tail of the largest BFS level and nothing else
+    // pool shared with C04: variables at every scope (plain and `some`) read once and several times, forward and backward
+    // named references, when-skipped rules, parameterised-rule bodies
+    let pool = crate::c04::extra_pool();
+    rep.extra.insert("variable_pool_programs".into(), serde_json::json!(pool.len()));
+    let mut files: Vec<(File, String)> = pool.into_iter().map(|f| {
+        let t = print_file(&f);
+        (f, t)
+    }).collect();
     let snf = same_name_family(thorough);
     rep.extra.insert("same_name_programs".into(), serde_json::json!(snf.len()));
     files.extend(snf.into_iter().map(|f| {
         let t = print_file(&f);
         (f, t)
     }));
-    // hand-written pool shared with C04: variables at every scope (plain and `some`) read once and several times, forward and
-    // backward named references, when-skipped rules
-    let pool = crate::c04::extra_pool();
-    rep.extra.insert("variable_pool_programs".into(), serde_json::json!(pool.len()));
-    files.extend(pool.into_iter().map(|f| {
-        let t = print_file(&f);
-        (f, t)
-    }));
+    files.extend(b.levels.iter().flatten().map(|f| (f.clone(), print_file(f))));
     let n = files.len() * docs.len();
     let deadline = crate::par::deadline_secs(if thorough { 3000 } else { 40 });
     let res = crate::par::run(
